@@ -207,7 +207,72 @@ def evaluate(item):
         shutil.rmtree(tmp, ignore_errors=True)
 
 
+def recheck(path, out, jobs):
+    """Re-run the checks (current state of /verif) on the mutants of an earlier run that no check reported;
+    suite verdicts are kept from that run."""
+    recs = [json.loads(l) for l in open(path)]
+    cache = {}
+
+    def one(rec):
+        if rec["status"] == "killed by checks":
+            return rec
+        rel = rec["file"]
+        if rel not in cache:
+            src = open(os.path.join(REPO, rel), encoding="utf-8").read()
+            tree = ast.parse(src)
+            cache[rel] = (tree, enumerate_mutants(tree), src.splitlines())
+        tree, muts, lines = cache[rel]
+        cands = [(d, ln, spec) for d, ln, spec in muts if d == rec["mutation"] and ln == rec["line"]]
+        if not cands:
+            return rec
+        k = rec.get("nth", 0)
+        spec = cands[min(k, len(cands) - 1)][2]
+        tmp = tempfile.mkdtemp(prefix="qsa_mut_")
+        try:
+            for d in ("src", "utils"):
+                shutil.copytree(os.path.join(REPO, d), os.path.join(tmp, d))
+            open(os.path.join(tmp, rel), "w", encoding="utf-8").write(ast.unparse(apply_mutant(tree, spec)) + "\n")
+            fired, errors = [], []
+            for p in PROPS:
+                env = dict(os.environ, QSA_REPO=tmp, QSA_NO_EVIDENCE="1")
+                r = subprocess.run([os.path.join(HERE, "bin", "vcheck"), p, "--tier", "quick"], env=env,
+                                   capture_output=True, text=True, timeout=900)
+                if r.returncode == 1:
+                    fired.append(p)
+                elif r.returncode != 0:
+                    errors.append(p)
+            new = dict(rec)
+            new["fired"], new["errors"] = fired, errors
+            passed = "suite passes" in rec["status"] or rec["status"].startswith("SURVIVED")
+            if fired:
+                new["status"] = "killed by checks"
+            elif errors:
+                new["status"] = "exit 2 only" + (" (suite passes)" if passed else " (suite fails)")
+            else:
+                new["status"] = "SURVIVED checks and suite" if passed else "killed by the suite only"
+            new["first_run_status"] = rec["status"]
+            return new
+        finally:
+            shutil.rmtree(tmp, ignore_errors=True)
+    # mutants sharing (line, mutation) are told apart by their order
+    seen = {}
+    for r_ in recs:
+        key = (r_["file"], r_["line"], r_["mutation"])
+        r_["nth"] = seen.get(key, 0)
+        seen[key] = r_["nth"] + 1
+    with open(out, "w") as fh, ThreadPoolExecutor(max_workers=jobs) as ex:
+        for new in ex.map(one, recs):
+            fh.write(json.dumps(new, ensure_ascii=False) + "\n")
+            fh.flush()
+    print(f"mutate: rechecked -> {out}")
+
+
 def main(argv):
+    if "--recheck" in argv:
+        i = argv.index("--recheck")
+        jobs = int(argv[argv.index("--jobs") + 1]) if "--jobs" in argv else 4
+        out = argv[argv.index("--out") + 1] if "--out" in argv else os.path.join(HERE, "out", "mutation.jsonl")
+        return recheck(argv[i + 1], out, jobs)
     files, limit, seed, jobs, out, resume = FILES, None, 1, 4, os.path.join(HERE, "out", "mutation.jsonl"), False
     i = 0
     while i < len(argv):
